@@ -350,6 +350,22 @@ def check(tier, seed):
         dev = {k: v for k, v in row.items() if v != DEFAULT[k]}
         rep.violation(sig_of(b), f"{b['detail']} origin={origin} row deviations={dev}",
                       {"cmd": "backend", "job": jobs[b["case"]], "origin": origin, "row": row, "detail": b["detail"]})
+    # resolutions whose fee rounds go up and down (change output at a CBOR width boundary, funds inside the fee window):
+    # the sweep of C05, judged here only for ending in ok / err
+    from . import resolveloop
+    rjobs, rheads = resolveloop.sweep_jobs([(44, 155381, None), (1, 2, 0)] if quick else
+                                           [(44, 155381, None), (1, 2, None), (0, 0, 0), (44, 1000, 0), (1, 2, 0)], quick, rng)
+    rtr, revs = resolveloop.run_jobs(rjobs, rheads, "c14_loop", 8 if quick else 12)
+    rep.add_trace(rtr)
+    rep.extra["fee_boundary_resolutions"] = len(rjobs)
+    for b in rtr.bad:
+        if b["why"] == "panic":
+            j = rjobs[b["case"]]
+            d = b["detail"]
+            import re
+            msg = re.sub(r"\d+", "N", str(d.get("msg")))[:60]
+            rep.violation(f"panic|resolve_tx|{d.get('site')}|{msg}|fee-boundary", f"{b['detail']} origin=fee-boundary",
+                          {"cmd": "resolve", "job": j, "head": rheads[b["case"]], "detail": b["detail"]})
     canary(rep)
     k = len(jobs) // 2
     rep.samples = [{"origin": meta[k][0], "row": meta[k][1]}, {"trace_events": evs[k]}]
